@@ -1,3 +1,4 @@
+use std::collections::HashSet;
 use std::sync::Arc;
 
 use crate::engine::core::read::flow::ColumnBatch;
@@ -11,6 +12,10 @@ pub struct WatermarkDeduplicator {
     initial_watermark: HighWaterMark, // Store the original watermark for comparison
     timestamp_idx: Option<usize>,
     event_idx: Option<usize>,
+    // Ids of the rows already stored at or after the watermark second. Event ids are not
+    // ordered across shards, so within that second only membership tells whether a row
+    // has been materialised before.
+    stored_ids: Option<HashSet<u64>>,
 }
 
 impl WatermarkDeduplicator {
@@ -24,7 +29,13 @@ impl WatermarkDeduplicator {
             initial_watermark: watermark, // Store the original watermark
             timestamp_idx,
             event_idx,
+            stored_ids: None,
         }
+    }
+
+    pub fn with_stored_ids(mut self, stored_ids: HashSet<u64>) -> Self {
+        self.stored_ids = Some(stored_ids);
+        self
     }
 
     pub fn enabled(&self) -> bool {
@@ -114,8 +125,12 @@ impl WatermarkDeduplicator {
             if let (Some(ts), Some(event)) = (ts, event) {
                 // Compare against initial watermark, not the advancing one
                 // This ensures rows from later batches aren't incorrectly filtered out
-                let passes =
-                    (ts, event) > (initial_watermark.timestamp, initial_watermark.event_id);
+                let passes = match self.stored_ids.as_mut() {
+                    Some(stored) => ts >= initial_watermark.timestamp && stored.insert(event),
+                    None => {
+                        (ts, event) > (initial_watermark.timestamp, initial_watermark.event_id)
+                    }
+                };
                 if passes {
                     keep.push(row_idx);
                 } else {
